@@ -25,6 +25,11 @@ type op struct {
 func (o *op) Identifier() string { return o.name }
 func (o *op) Execute() error     { return o.fn() }
 
+// identPanicStage: a stage whose Identifier() panics.
+type identPanicStage struct{ *stage.VerifStage }
+
+func (s *identPanicStage) Identifier() string { panic("boom in Identifier") }
+
 func run(name string, build func(ctx context.Context, pool concurrent.Pool) stage.Stage) {
 	pool := concurrent.NewPool(name, 4, time.Minute, metrics.NewConcurrentStatistics(name, linmetric.BrokerRegistry))
 	ctx, cancel := context.WithCancel(context.Background())
@@ -62,6 +67,23 @@ func main() {
 			func() []stage.Stage { panic("boom in NextStages") }, nil)
 		return stage.NewVerifStage(ctx, pool, stage.ShardScan, "root", stage.NewPlanNode(&op{"ok", ok}),
 			func() []stage.Stage { return []stage.Stage{child} }, nil)
+	})
+	// (4) a stage panics while the state machine registers it (pipelineStateMachine.executeStage increments pending and
+	// then calls stage.Identifier()) in the completion handler of a pooled stage: completion is never signalled.
+	// (4a) NextStages() of a pooled stage returns a typed nil stage pointer; (4b) Identifier() panics.
+	// The same two under an inline root complete with the panic as error (pipeline.Execute's recover).
+	run("async-root->typed-nil-child", func(ctx context.Context, pool concurrent.Pool) stage.Stage {
+		return stage.NewVerifStage(ctx, pool, stage.ShardScan, "root", stage.NewPlanNode(&op{"ok", ok}),
+			func() []stage.Stage { return []stage.Stage{(*stage.VerifStage)(nil)} }, nil)
+	})
+	run("async-root->child-identifier-panic", func(ctx context.Context, pool concurrent.Pool) stage.Stage {
+		child := &identPanicStage{stage.NewVerifStage(nil, nil, stage.Grouping, "child", stage.NewPlanNode(&op{"ok", ok}), nil, nil)}
+		return stage.NewVerifStage(ctx, pool, stage.ShardScan, "root", stage.NewPlanNode(&op{"ok", ok}),
+			func() []stage.Stage { return []stage.Stage{child} }, nil)
+	})
+	run("sync-root->typed-nil-child", func(ctx context.Context, pool concurrent.Pool) stage.Stage {
+		return stage.NewVerifStage(nil, nil, stage.ShardScan, "root", stage.NewPlanNode(&op{"ok", ok}),
+			func() []stage.Stage { return []stage.Stage{(*stage.VerifStage)(nil)} }, nil)
 	})
 	// (3) context done when a pooled child is submitted: Pool.Submit's select takes the ctx.Done branch (at random
 	// when the queue also has room) and drops the task silently
